@@ -17,12 +17,14 @@ Inductive event (T : Type) :=
 | EPerm (n : nat) (vals : list nat).                (* np.random.permutation(n) *)
 Arguments ERand {T}. Arguments EChoice {T}. Arguments ERandint {T}. Arguments EPerm {T}.
 
-Definition M (T A : Type) := list (event T) -> res (A * list (event T)).
-Definition ret {T A} (a : A) : M T A := fun s => Ok (a, s).
-Definition bind {T A B} (m : M T A) (f : A -> M T B) : M T B :=
+(* state monad over a stream of events: draw events (M) or oracle answers (Model/RankCrowd.v) *)
+Definition SM (E A : Type) := list E -> res (A * list E).
+Definition M (T A : Type) := SM (event T) A.
+Definition ret {E A} (a : A) : SM E A := fun s => Ok (a, s).
+Definition bind {E A B} (m : SM E A) (f : A -> SM E B) : SM E B :=
   fun s => match m s with Ok (a, s') => f a s' | Err e => Err e end.
-Definition fail {T A} (e : err) : M T A := fun _ => Err e.
-Definition lift {T A} (site : nat) (o : option A) : M T A :=
+Definition fail {E A} (e : err) : SM E A := fun _ => Err e.
+Definition lift {E A} (site : nat) (o : option A) : SM E A :=
   match o with Some a => ret a | None => fail (BadShape site) end.
 
 Notation "x <- e ;; k" := (bind e (fun x => k)) (at level 61, e at next level, right associativity).
@@ -65,16 +67,16 @@ Definition draw_randint {T} (site lo hi : nat) (size : option nat) : M T (list n
   | [] => Err OutOfDraws
   end.
 
-Lemma bind_ok {T A B} (m : M T A) (f : A -> M T B) s b s2 :
+Lemma bind_ok {E A B} (m : SM E A) (f : A -> SM E B) s b s2 :
   bind m f s = Ok (b, s2) -> exists a s1, m s = Ok (a, s1) /\ f a s1 = Ok (b, s2).
 Proof.
   unfold bind. destruct (m s) as [[a s1]|e]; [|discriminate]. intro H. now exists a, s1.
 Qed.
 
-Lemma ret_ok {T A} (a b : A) (s s' : list (event T)) : ret a s = Ok (b, s') -> a = b /\ s = s'.
+Lemma ret_ok {E A} (a b : A) (s s' : list E) : ret a s = Ok (b, s') -> a = b /\ s = s'.
 Proof. unfold ret. intro H. now inversion H. Qed.
 
-Lemma lift_ok {T A} site (o : option A) (s s' : list (event T)) a :
+Lemma lift_ok {E A} site (o : option A) (s s' : list E) a :
   lift site o s = Ok (a, s') -> o = Some a /\ s = s'.
 Proof. destruct o; cbn; unfold ret, fail; intro H; inversion H; auto. Qed.
 
